@@ -29,7 +29,8 @@ GENERATED = [tr.OUT, tr_steady.OUT, tr_variants.OUT]
 CASE_DEPS = ["model/Ford.vo", "model/FordSteady.vo", "model/VariantList.vo"]
 ALLOWED_AXIOMS: set = set()          # every theorem is closed under the global context
 TRUSTED = [
-    "translator/ford.py (tolerance predicates, classifiers, token-level scalar rules -> gen/FordGen.v)",
+    "translator/ford.py (tolerance predicates, classifiers, token-level scalar rules -> gen/FordGen.v; the statements of "
+    "_solve_measurement_equations and left_div are compared literally with the ones modelled by solve_measurement)",
     "translator/fordsteady.py (the twelve blocks of AB, FF, GG and k of solve_steady_linear_nonflat -> gen/FordSteadyGen.v; every "
     "other statement of the function and the (linear, non-flat) dispatch are compared literally)",
     "translator/variantlist.py (the list-filling statement of Mixin.expand_num_variants -> gen/VariantListGen.v; num_variants, "
@@ -65,7 +66,8 @@ MANIFEST = {
                   "a steady state of the system is a fixed point of the recursion and level = steady + deviation period by period; the "
                   "same along a GROWING steady-state path (three consecutive points of an affine path satisfying the system are one step of the "
                   "recursion; C = -(A xi + B xi_lagged) makes that hold by construction); the deviation path satisfies the homogeneous "
-                  "system; measurement block; STABLE iff #unstable = #forward-looking, the three "
+                  "system; measurement block, for any invertible F (also non-diagonal / non-symmetric: measurement equations referring to other "
+                  "measurement variables), and (Z, H, D) are the ONLY matrices satisfying it, a transposed solve is refuted; STABLE iff #unstable = #forward-looking, the three "
                   "eigenvalue classes partition, and the QZ ordering predicate agrees with the classifier (predicates regenerated from "
                   "fords/solutions.py); the recursion matrix has exactly the generalised eigenvalues of the pencil block ordered first. "
                   "Steady state of linear non-flat models (solve_steady_linear_nonflat, the blocks of the stacked matrices regenerated from "
@@ -155,7 +157,7 @@ def gen_spec(rng, max_states=8) -> dict:
                 eqs[i]["nl"].append([j1, rng.choice([-1, 0]) if j1 != i else -1, j2, -1, _r(rng, -0.15, 0.15)])
             else:
                 nonlinear = False
-        ny = rng.choice([0, 1, 1, 2])
+        ny = rng.choice([0, 1, 1, 2, 2, 3])
         meas = []
         nw = 0
         for k in range(ny):
@@ -167,6 +169,8 @@ def gen_spec(rng, max_states=8) -> dict:
                          "const": _r(rng, -1, 1) if rng.random() < 0.6 else 0.0,
                          "log": uselog and rng.random() < 0.3, "wshock": nw if w else None})
             nw += 1 if w else 0
+        if ny >= 2 and rng.random() < 0.7:
+            add_cross_measurement(rng, meas)
         linear_flag = (not nonlinear) and (not any(logs)) and not any(m["log"] for m in meas) and rng.random() < 0.6
         spec = {"n": n, "logs": logs, "eqs": eqs, "meas": meas, "nshocks": nshocks, "nw": nw,
                 "linear": linear_flag, "flat": rng.random() < 0.8, "literal": rng.random() < 0.4}
@@ -175,6 +179,56 @@ def gen_spec(rng, max_states=8) -> dict:
             continue
         return spec
     raise RuntimeError("generator: no model within the size limit")
+
+
+def meas_cross_matrix(meas) -> np.ndarray:
+    """Q with  V(o_k) = ... + sum_k2 Q[k, k2] V(o_k2): the references of measurement equations to OTHER measurement variables
+    (the measurement Jacobian w.r.t. measurement variables is then F = Q - I up to the sign convention: not diagonal)"""
+    ny = len(meas)
+    Q = np.zeros((ny, ny))
+    for k, me in enumerate(meas):
+        for (k2, c) in me.get("oterms", []):
+            Q[k, k2] += c
+    return Q
+
+
+def add_cross_measurement(rng, meas) -> bool:
+    """measurement equations that refer to other measurement variables (o2 = x + 0.5*o1 + w2): one-way, two-way with different
+    coefficients, chains and cycles, so that F is neither diagonal nor symmetric (and, half of the time, not triangular
+    either); I - Q well conditioned, so that the measurement block determines the measurement variables uniquely"""
+    ny = len(meas)
+    if ny < 2:
+        return False
+    pairs = [(k, k2) for k in range(ny) for k2 in range(ny) if k != k2]
+    for _ in range(40):
+        Q = np.zeros((ny, ny))
+        for (k, k2) in pairs:
+            if rng.random() < 0.5:
+                Q[k, k2] = _r(rng, -0.8, 0.8)
+        if not Q.any() or np.abs(Q - Q.T).max() < 0.1 or abs(np.linalg.det(np.eye(ny) - Q)) < 0.3:
+            continue
+        for k in range(ny):
+            meas[k]["oterms"] = [[k2, float(Q[k, k2])] for k2 in range(ny) if Q[k, k2] != 0.0]
+        return True
+    return False
+
+
+def force_cross_measurement(rng, spec) -> dict:
+    """the same (already accepted) model with at least two measurement variables that refer to each other asymmetrically;
+    the transition block, hence determinacy, is untouched (a measurement term at shift 0 adds no state)"""
+    while len(spec["meas"]) < rng.choice([2, 2, 3]):
+        spec["meas"].append({"terms": [[rng.randrange(spec["n"]), 0, _r(rng, 0.5, 2.0)]], "const": _r(rng, -1, 1),
+                             "log": False, "wshock": None})
+    add_cross_measurement(rng, spec["meas"])
+    return spec
+
+
+def meas_steady(meas, rhs) -> np.ndarray:
+    """solves the measurement block for the measurement variables given the right-hand sides without the cross references"""
+    ny = len(meas)
+    if ny == 0:
+        return np.zeros(0)
+    return np.linalg.solve(np.eye(ny) - meas_cross_matrix(meas), np.asarray(rhs, dtype=float))
 
 
 def add_growth(rng, base, zbar) -> dict:
@@ -243,9 +297,11 @@ def growth_steady_assignment(spec) -> dict:
     for j in range(spec["n"]):
         lv, ch = g["level"][j], g["change"][j]
         out[vname(j)] = (math.exp(lv), math.exp(ch)) if spec["logs"][j] else (lv, ch)
+    lvs = meas_steady(spec["meas"], [me["const"] + sum(c * (g["level"][j] + sh * g["change"][j]) for (j, sh, c) in me["terms"])
+                                     for me in spec["meas"]])
+    chs = meas_steady(spec["meas"], [sum(c * g["change"][j] for (j, sh, c) in me["terms"]) for me in spec["meas"]])
     for k, me in enumerate(spec["meas"]):
-        lv = me["const"] + sum(c * (g["level"][j] + sh * g["change"][j]) for (j, sh, c) in me["terms"])
-        ch = sum(c * g["change"][j] for (j, sh, c) in me["terms"])
+        lv, ch = float(lvs[k]), float(chs[k])
         out[oname(k)] = (math.exp(lv), math.exp(ch)) if me["log"] else (lv, ch)
     return out
 
@@ -306,6 +362,9 @@ def render_source(spec) -> tuple[str, dict]:
     meq = []
     for k, m in enumerate(spec["meas"]):
         rhs = [f"{coef(f'm{k + 1}_{j + 1}m{abs(sh)}', c)}*{_tok(spec, j, sh)}" for (j, sh, c) in m["terms"]]
+        for (k2, c) in m.get("oterms", []):
+            o2 = f"log({oname(k2)})" if spec["meas"][k2]["log"] else oname(k2)
+            rhs.append(f"{coef(f'q{k + 1}_{k2 + 1}', c)}*{o2}")
         if m["const"] != 0.0:
             rhs.append(coef(f"d{k + 1}", m["const"]))
         if m["wshock"] is not None:
@@ -1113,6 +1172,10 @@ def property_residual(spec, m, sc, out, span, Jc=None, V=None, tol=2e-6, lag_mod
             o = series_value(out, oname(k), p)
             o = math.log(o) if me["log"] else o
             rhs = sum(c * Vraw(out, j, p + sh) for (j, sh, c) in me["terms"])
+            for (k2, c) in me.get("oterms", []):
+                # a reference to ANOTHER measurement variable of the same date (F not diagonal)
+                o2 = series_value(out, oname(k2), p)
+                rhs += c * (math.log(o2) if spec["meas"][k2]["log"] else o2)
             if not dev:
                 rhs += me["const"]
             if me["wshock"] is not None:
@@ -1178,6 +1241,8 @@ def scaled_spec(spec, factor) -> dict:
             e["const"] = rr(e["const"])
     for me in sp["meas"]:
         me["terms"] = [[j, sh, rr(c)] for (j, sh, c) in me["terms"]]
+        if me.get("oterms"):
+            me["oterms"] = [[k2, rr(c)] for (k2, c) in me["oterms"]]
         if me["const"] != 0.0:
             me["const"] = rr(me["const"])
     return sp
@@ -1492,6 +1557,9 @@ def correspondence(ctx) -> CorrResult:
         dist["log_models"] += int(any(spec["logs"])); dist["linear_flag"] += int(spec["linear"])
         dist["growth_models"] = dist.get("growth_models", 0) + int(bool(spec.get("growth")))
         dist["nonlinear_models"] += int(any(e["nl"] for e in spec["eqs"])); dist["measurement"] += int(bool(spec["meas"]))
+        Qm = meas_cross_matrix(spec["meas"])
+        dist["cross_measurement_models"] = dist.get("cross_measurement_models", 0) + int(bool(Qm.any()))
+        dist["nontriangular_F_models"] = dist.get("nontriangular_F_models", 0) + int(bool(np.triu(Qm, 1).any() and np.tril(Qm, -1).any()))
         if len(samples) < 3:
             samples.append({"source": render_source(spec)[0], "system_vector": [(t.qid, t.shift) for t in
                             b.d.system_vectors.transition_variables], "eigenvalues": [str(e) for e in b.sol.eigenvalues]})
@@ -1562,7 +1630,9 @@ def correspondence(ctx) -> CorrResult:
     res.distinct_nontrivial = dist["scenarios"] + 3 * dist["models"] + dist["variant_history_calls"]
     res.distribution = dist
     res.samples = samples
-    res.rule = ("one generated determinate model (1-4 variables, lags/leads <= 3, log-variables, constants, measurement block, "
+    res.rule = ("one generated determinate model (1-4 variables, lags/leads <= 3, log-variables, constants, measurement block with 0-3 "
+                "measurement variables, which in 70% of the models with >= 2 of them refer to OTHER measurement variables so that F is "
+                "neither diagonal nor symmetric, "
                 "optionally a product term) -> Simultaneous.from_string/assign/steady/solve with QZ and Schur recorded; checks per "
                 "model: 15 solution matrices, the constant vector C of models not declared linear (from the steady-state path, also "
                 "a growing one: 40% of the draws are balanced-growth versions with a stochastic trend), forward expansion, token vectors + dynamic identities (exact), eigenvalue "
@@ -1759,8 +1829,13 @@ def falsify(ctx, hints):
             seq = inp.get("scenarios") or ([inp["scenario"]] if inp.get("scenario") else None)
             todo.append((inp["spec"], seq))
     n = ctx.scale(24, 500)
-    for _ in range(n):
+    n_cross = ctx.scale(6, 100)
+    for i_gen in range(n + n_cross):
         spec, _acc = gen_determinate(rng, ctx.scale(8, 12))
+        if i_gen >= n:
+            # measurement equations that refer to OTHER measurement variables: F neither diagonal nor symmetric
+            force_cross_measurement(rng, spec)
+            info["cross_measurement_models_forced"] = info.get("cross_measurement_models_forced", 0) + 1
         todo.append((spec, None))
     for spec, sc0 in todo:
         acc = _accept(spec)
